@@ -743,6 +743,24 @@ class TS:
                     v = env.get(r[2])
                     if v is not None and v[0] == "ST":
                         S = v[1]
+                if S is None and r[0] == "local":
+                    # `set_state(if c { A } else { B })`: a local whose definitions are all constant states
+                    consts = set()
+                    for d_ in fn.defs().get(r[1], []):
+                        if d_[2] == "assign" and d_[3][0] == "agg" and d_[3][1].endswith("state::TaskState") and not d_[3][4]:
+                            consts.add(d_[3][2])
+                        else:
+                            consts = None
+                            break
+                    if consts:
+                        for S_ in sorted(consts):
+                            ev_ = ("WRITE", s, S_, fn.q, b)
+                            mon_ = monitor.on_event(mon, ev_)
+                            self._after(mon_, report, ev_)
+                            if mon_ == "STOP" or (isinstance(mon_, tuple) and mon_ and mon_[0] == "VIOL"):
+                                continue
+                            push(nxt, s=S_, cok=cok2, mon=mon_, env=env2, ev=ev_)
+                        return
                 if S is None:
                     ev = ("WRITE", s, "?", fn.q, b)
                     mon2 = monitor.on_event(mon, ev)
